@@ -18,6 +18,7 @@ type refStage struct {
 	task     string // "" if pipeline
 	pipeline string
 	deps     []string
+	unnamed  bool // no `name:` in the file: the stage is named after its task / pipeline (then name == that)
 }
 
 type refCfg struct {
@@ -38,11 +39,15 @@ func (c refCfg) yaml() string {
 	for _, p := range c.porder {
 		fmt.Fprintf(&b, "  %s:\n", p)
 		for _, s := range c.pipelines[p] {
-			fmt.Fprintf(&b, "    - name: %s\n", s.name)
+			first := "    - "
+			if !s.unnamed {
+				fmt.Fprintf(&b, "    - name: %s\n", s.name)
+				first = "      "
+			}
 			if s.task != "" {
-				fmt.Fprintf(&b, "      task: %s\n", s.task)
+				fmt.Fprintf(&b, "%stask: %s\n", first, s.task)
 			} else {
-				fmt.Fprintf(&b, "      pipeline: %s\n", s.pipeline)
+				fmt.Fprintf(&b, "%spipeline: %s\n", first, s.pipeline)
 			}
 			if len(s.deps) > 0 {
 				fmt.Fprintf(&b, "      depends_on: [%s]\n", strings.Join(s.deps, ", "))
@@ -93,7 +98,7 @@ func genValid(rng *rand.Rand) refCfg {
 	for i := 0; i < nt; i++ {
 		c.tasks = append(c.tasks, fmt.Sprintf("t%d", i))
 	}
-	np := 2 + rng.Intn(3)
+	np := 1 + rng.Intn(4)
 	for i := 0; i < np; i++ {
 		c.porder = append(c.porder, fmt.Sprintf("p%d", i))
 	}
@@ -114,6 +119,31 @@ func genValid(rng *rand.Rand) refCfg {
 				}
 			}
 			stages = append(stages, s)
+		}
+		// one stage without a name of its own: it is named after its task (if that name is still free)
+		if rng.Intn(2) == 0 {
+			k := rng.Intn(len(stages))
+			def := stages[k].task
+			if def == "" {
+				def = stages[k].pipeline
+			}
+			free := true
+			for _, o := range stages {
+				if o.name == def {
+					free = false
+				}
+			}
+			if free {
+				old := stages[k].name
+				stages[k].name, stages[k].unnamed = def, true
+				for i := range stages {
+					for j, d := range stages[i].deps {
+						if d == old {
+							stages[i].deps[j] = def
+						}
+					}
+				}
+			}
 		}
 		// declaration order shuffled: depends_on may name stages declared later
 		rng.Shuffle(len(stages), func(a, b int) { stages[a], stages[b] = stages[b], stages[a] })
@@ -171,6 +201,7 @@ func mutations(c refCfg, rng *rand.Rand) []refCfg {
 			if k > 0 {
 				m3 := cloneCfg(c)
 				m3.pipelines[p][k].name = m3.pipelines[p][0].name
+				m3.pipelines[p][k].unnamed = false
 				m3.pipelines[p][k].deps = nil
 				// keep other stages' depends_on meaningful: they may still name the old stage; drop those
 				for i := range m3.pipelines[p] {
@@ -186,6 +217,17 @@ func mutations(c refCfg, rng *rand.Rand) []refCfg {
 				out = append(out, m3)
 			}
 		}
+	}
+	for _, p := range c.porder {
+		t0 := c.tasks[0]
+		m := cloneCfg(c)
+		m.pipelines[p] = append(m.pipelines[p], refStage{name: t0, task: t0, unnamed: true}, refStage{name: t0, task: t0, unnamed: true})
+		m.mut = fmt.Sprintf("duplicate stage name in %s through two unnamed stages of task %s", p, t0)
+		out = append(out, m)
+		m2 := cloneCfg(c)
+		m2.pipelines[p] = append(m2.pipelines[p], refStage{name: t0, task: c.tasks[len(c.tasks)-1]}, refStage{name: t0, task: t0, unnamed: true})
+		m2.mut = fmt.Sprintf("duplicate stage name in %s: explicit name %s then an unnamed stage defaulting to it", p, t0)
+		out = append(out, m2)
 	}
 	for w := range c.watchers {
 		m := cloneCfg(c)
